@@ -68,6 +68,11 @@ def run():
             cov = g.new_event(kind=1, pk=AUTHORS[0], t=100, content=b'covered')
             dreq = g.new_event(kind=5, pk=AUTHORS[0], t=150, tags=[[b'e', cov['id'].hex().encode()]], content=b'')
             pairs += [({'op': 'store', 'ev': dreq}, {'op': 'store', 'ev': cov}), ({'op': 'store', 'ev': cov}, {'op': 'store', 'ev': dreq})]
+            # always: an ephemeral event (appended but never indexed) and a regular one, both orders - the append of the one
+            # must still be ordered with the append and the index writes of the other
+            eph = g.new_event(kind=20001, pk=AUTHORS[2], t=100, tags=[], content=b'eph' * rng.choice([1, 200]))
+            reg = g.new_event(kind=1, pk=AUTHORS[2], t=100, tags=[], content=b'reg' * rng.choice([1, 300]))
+            pairs += [({'op': 'store', 'ev': eph}, {'op': 'store', 'ev': reg}), ({'op': 'store', 'ev': reg}, {'op': 'store', 'ev': eph})]
             for a, b in pairs:
                 scen.append((pre, a, b))
         # phase 1: trace A on the prepared store
@@ -91,7 +96,10 @@ def run():
             for p in [x for x in ('store:indexed', 'store:committed', 'remove:before_commit') if x in seen]:
                 tests.append((pre, a, b, p, False))
         if Q and len(tests) > 260:
-            tests = rng.sample(tests, 260)
+            is_eph = lambda o: o['op'] == 'store' and 20000 <= o['ev']['kind'] < 30000
+            must = [t for t in tests if t[4] and (is_eph(t[1]) or is_eph(t[2]))]
+            rest = [t for t in tests if t not in must]
+            tests = must + rng.sample(rest, max(0, 260 - len(must)))
         # phase 2: forced schedules
         lines, meta = [], []
         for ti, (pre, a, b, p, writer) in enumerate(tests):
